@@ -49,6 +49,7 @@ class World(object):
         self.damaged_par = set()      # (level, pos)
         self.events = []              # what happened, for evidence samples / replay reports
         self.nsteps = 0
+        self.trash = []               # (disk, rel, bytes, mtime_ns) of files the harness deleted: material for "restore from backup"
 
     # ------------------------------------------------------------------ clock / identity
     def tick(self, ns_zero=False):
@@ -180,8 +181,18 @@ class World(object):
             if rel is None:
                 return None
             old = self.read_file(d, rel)
-            self.write_file(d, rel, gen_bytes(s.get("cseed", 0), len(old), s.get("kind", 0)))
-            ev = ("rewrite", d, rel, len(old))
+            mt = None
+            if s.get("same_sec"):
+                # modified again within the same second: only the sub-second part of the time-stamp changes
+                omt = self.mtime_ns(d, rel)
+                mt = (omt // 10**9) * 10**9 + ((omt % 10**9) + 1 + s.get("cseed", 0) % 999999000) % 10**9
+                if mt % 10**9 == 0:
+                    mt += 1
+            new = gen_bytes(s.get("cseed", 0) + 1, len(old), s.get("kind", 0))
+            if new == old and old:
+                new = bytes([old[0] ^ 0x55]) + old[1:]
+            self.write_file(d, rel, new, mtime_ns=mt)
+            ev = ("rewrite", d, rel, len(old)) if not s.get("same_sec") else ("rewrite_same_second", d, rel, len(old))
         elif op == "touch":     # time-stamp only
             rel = self.pick(d, s["fi"])
             if rel is None:
@@ -192,8 +203,19 @@ class World(object):
             rel = self.pick(d, s["fi"])
             if rel is None:
                 return None
+            self.trash.append((d, rel, self.read_file(d, rel), self.mtime_ns(d, rel)))
             os.unlink(self.full(d, rel))
             ev = ("delete", d, rel)
+        elif op == "undelete":
+            # restore a previously deleted file with identical bytes (from a backup): new or preserved time-stamp
+            if not self.trash:
+                return None
+            td, rel, data, mt = self.trash[-1 - (s["fi"] % len(self.trash))]   # fi 0 = the file deleted last
+            if os.path.lexists(self.full(td, rel)):
+                return None
+            if not self.write_file(td, rel, data, mtime_ns=mt if s.get("keep_mtime") else None):
+                return None
+            ev = ("undelete", td, rel, len(data))
         elif op in ("rename", "move", "copy"):
             rel = self.pick(d, s["fi"])
             if rel is None:
